@@ -793,7 +793,7 @@ static void sweep_c16(Obj &o, const Case &c, XorShift &x) {
 // C16, second half: unknown type tags and foreign images.  `img` is a valid image of the case's kind.
 static void c16_tags_and_foreign_images(const Case &c, const std::string &img, XorShift &x) {
   if (img.size() < 4) return;
-  static const uint32_t known[] = {11, 114, 12, 124, 211, 214, 221, 222, 223, 3, 4, 5};
+  static const uint32_t known[] = {11, 114, 12, 124, 125, 211, 214, 221, 222, 223, 3, 4, 5};   // 125 = HASHRPDACBlocks (known to the dispatcher since its repair)
   auto is_known = [&](uint32_t t) { for (uint32_t k : known) if (k == t) return true; return false; };
   std::vector<uint32_t> tags = {0, 1, 2, 6, 10, 13, 113, 115, 123, 125, 126, 210, 212, 213, 215, 220, 224, 0xFFFFFFFFu, 0x80000000u};
   for (uint32_t k : known) { tags.push_back(k | 0x100u << (8 * (x.below(3)))); tags.push_back(k | 0x80000000u); tags.push_back(k << 8); }
